@@ -43,6 +43,7 @@ import Bmc.Proofs.EndToEnd.DecodeSetupC07
 import Bmc.Proofs.EndToEnd.ReuseC17
 import Bmc.Proofs.EndToEnd.ReceiverC17
 import Bmc.Proofs.EndToEnd.HistoryC17
+import Bmc.Proofs.EndToEnd.SessionlessHistory
 #print axioms Bmc.Proofs.C17.deviceID_reuse
 #print axioms Bmc.Proofs.C17.chassis_reuse
 #print axioms Bmc.Proofs.C17.message_reuse
@@ -166,3 +167,6 @@ import Bmc.Proofs.EndToEnd.HistoryC17
 #print axioms Bmc.Proofs.EndToEnd.generated_Message_ignores_receiver
 #print axioms Bmc.Proofs.EndToEnd.generatedResults_eq
 #print axioms Bmc.Proofs.EndToEnd.generated_history_ignores_what_the_connection_holds
+#print axioms Bmc.Proofs.EndToEnd.generated_sessionless_history
+#print axioms Bmc.Proofs.EndToEnd.generated_sessionless_history_ignores_connection
+#print axioms Bmc.Proofs.EndToEnd.generated_sessionless_history_null
